@@ -231,7 +231,7 @@ def scalar_harness(prop, term, ty, src, n, t, c, chunk_expr=None, extra_pre="", 
     return H(name, body, {"terminal": term, "type": p.type(), "kernel": KERNEL_OF_TYPE[p.type()], "src": src, "n": n,
                           "threads": t, "chunk": chunk_expr or f"Exact({c})", "schedule": "symbolic",
                           "pipeline": p.descr()},
-             unwind=n + 2, weight=weight or n * t * (2 if c == 1 else 3))
+             unwind=(23 if (chunk_expr and "Auto" in chunk_expr) else n + 2), weight=weight or n * t * (2 if c == 1 else 3))
 
 
 # ---------------------------------------------------------------- shape-enumerated (Vec-building) terminals
@@ -294,16 +294,17 @@ def tagged_multiset_eq(tp, out, msg="collect_x is not a permutation of the seque
 
 
 def collect_harness(prop, term, ty, src, n, t, c, owners, counts, obs=1, extra_pre="", check=None, tag="",
-                    chunk_expr=None, target=None, weight=None, count_calls=False, extra_post="", unwind=None, available=None):
+                    chunk_expr=None, target=None, weight=None, count_calls=False, extra_post="", unwind=None, available=None,
+                    drainer=0):
     """One query = one shape: owner table x outputs-per-element, values symbolic.
     term: collect_vec | collect | collect_x | collect_into (target = Rust expr of the pre-filled target and its
     prefix length is checked by `check`)."""
     tsrc = {"slice": "tslice", "vec": "tvec", "iter": "titer", "iterf": "titerf", "counting": "tcounting",
             "sched": "tsched", "schedx": "tschedx"}[src]
-    tp = TaggedPipeline(ty, counts, src=tsrc, count_calls=count_calls)
+    tp = TaggedPipeline(ty, counts, src=tsrc, count_calls=count_calls, fan_extra=(0 if term == "collect_x" else 1))
     if owners is None:
         # iterator-backed source or sequential mode: no schedule model (first worker drains all)
-        body = tp.decl() + f"    model::begin_unscheduled({max(t, 2)});\n"
+        body = tp.decl() + f"    model::begin_drain({max(t, 2)}, {drainer if t > 1 else 0});\n"
         body += "    #[cfg(not(kani))]\n    { model::set_base(a.as_ptr() as usize); model::set_stride(core::mem::size_of::<(usize, u8)>()); }\n"
     else:
         body = tagged_prelude(tp, n, t, owners, obs, available)
@@ -319,15 +320,14 @@ def collect_harness(prop, term, ty, src, n, t, c, owners, counts, obs=1, extra_p
         raise ValueError(term)
     body += extra_post
     body += "    kani::cover!(true);\n"
-    if owners is None and t > 1:
-        body += "    kani::cover!(model::drainer() == 1);\n"
-    name = cfg_name(prop, term, ty, src, f"n{n}", f"t{t}", f"c{c}", shape_name(owners if owners is not None else ["d"], counts), tag)
+
+    name = cfg_name(prop, term, ty, src, f"n{n}", f"t{t}", f"c{c}", shape_name(owners if owners is not None else ["d", drainer], counts), tag)
     return H(name, body, {"terminal": term, "type": ty, "kernel": KERNEL_OF_TYPE[ty], "src": src, "n": n, "threads": t,
                           "chunk": chunk_expr or f"Exact({c})",
                           "schedule": ({"owners": list(owners), "observations": {1: "lazy", 2: "eager"}.get(obs, obs)}
-                                       if owners is not None else ("sequential mode" if t == 1 else "first worker drains all")),
+                                       if owners is not None else ("sequential mode" if t == 1 else f"worker {drainer} drains the source, the others find it exhausted")),
                           "outputs_per_element": list(counts), "values": "symbolic, decisions on concrete position tags"},
-             unwind=unwind if unwind else 34 if (term == "collect" and ty == "M") else max(n + 3, sum(counts) + 3, 2 * n + 1 if "FL" in ty else 0),
+             unwind=unwind if unwind else 34 if (ty == "M" and (term == "collect" or src in ("sched", "iterf", "counting"))) else max(n + 3, sum(counts) + 3, 2 * n + 1 if "FL" in ty else 0),
              weight=weight or (5 + sum(counts) * 2 + (6 if term in ("collect", "collect_x") else 0)))
 
 
